@@ -511,6 +511,7 @@ fn machinery(msg: &str) -> ! {
 /// The watchdog never touches the environment; it only reads atomics and terminates the process.
 fn start_watchdog(tier: Tier) {
     let limit = tier.pick(10u64, 30u64);
+    let main_tid = crate::common::par::my_tid();
     std::thread::spawn(move || {
         let mut last = (u64::MAX, std::time::Instant::now());
         loop {
@@ -519,6 +520,10 @@ fn start_watchdog(tier: Tier) {
             if t != last.0 {
                 last = (t, std::time::Instant::now());
             } else if last.1.elapsed().as_secs() >= limit && CUR_IDX.load(Ordering::Relaxed) != u64::MAX {
+                if !crate::common::par::confirm_stuck(main_tid, std::time::Duration::from_secs(limit), &|| TICK.load(Ordering::Relaxed) == t) {
+                    last = (u64::MAX, std::time::Instant::now());
+                    continue;
+                }
                 let idx = CUR_IDX.load(Ordering::Relaxed);
                 let mut t = String::new();
                 Space::new(tier).get(idx, &mut t);
